@@ -1900,6 +1900,8 @@ TARGETS2 = {
         ("varintFOR.c", "varintFORGetOffsetWidth", "forGetOffsetWidth"),
         ("varintFOR.c", "varintFORGetAt", "forGetAt"),
         ("varintFOR.c", "varintFORDecode", "forDecode"),
+        ("varintFOR.c", "varintFORBatchDecode", "forBatchDecode"),
+        ("varintFOR.c", "varintFORDecodeBlock", "forDecodeBlock"),
     ],
     "CChainedW": [
         ("varintChained.c", "putVarint64", "chainedPut64"),
